@@ -539,6 +539,14 @@ func (b *Builder) AllComparisonSeries(existing []*ComparisonSeries, dupeHow int)
 					hp, ok := cs.HashPairs[serString]
 					if !ok {
 						cs.HashPairs[serString] = ComparisonHashes{NumHash: hashString, DenHash: tr.baselineHashString}
+					} else if hp.NumHash == hashString && (hp.DenHash == "" || tr.baselineHashString == "") {
+						// A trial without baseline measurements knows no
+						// denominator hash. Which trial is visited first
+						// must not decide whether the pair has one.
+						if hp.DenHash == "" {
+							hp.DenHash = tr.baselineHashString
+							cs.HashPairs[serString] = hp
+						}
 					} else {
 						if hp.NumHash != hashString || hp.DenHash != tr.baselineHashString {
 							fmt.Fprintf(os.Stderr, "numerator/denominator mismatch, expected %s/%s got %s/%s\n",
